@@ -525,8 +525,8 @@ def same_arch(S0, S1) -> bool:
     return list(S0) == list(S1) and all(S0[k].shape == S1[k].shape for k in S0)
 
 
-def check_clone(chk: Check, spec, m, x, seed: int, label: str):
-    """clone oracle + strict-load correspondence; -> (problems, diffs, clone or None)"""
+def check_clone(chk: Check, spec, m, x, seed: int, label: str, light: bool = False):
+    """clone oracle + (unless `light`) strict-load correspondence; -> (problems, diffs, clone or None)"""
     problems, diffs = [], []
     try:
         c = m.clone()
@@ -564,6 +564,8 @@ def check_clone(chk: Check, spec, m, x, seed: int, label: str):
         y0, y1 = forward(spec, m, x, seed, train), forward(spec, c, x, seed, train)
         if outputs_differ(y0, y1):
             problems.append(f"{label}: clone()(x) != module(x) in {'training' if train else 'eval'} mode")
+    if light:
+        return problems, diffs, c
     # model: strict load of the state dict into a module rebuilt from init_dict
     try:
         fresh = type(m)(**copy.deepcopy(m.init_dict))
@@ -667,6 +669,103 @@ def locality_problems(H0: dict, H1: dict, op: str, name: str) -> list:
     return bad
 
 
+class _HookFault(RuntimeError):
+    """raised once by the injected mutation hook"""
+
+
+HYPER_KEYS = set(HYPER_ATTRS) | {"num_outputs", "num_inputs", "input_size", "hidden_layer"}
+
+
+def _canon(v):
+    """JSON-able canonical form of a configuration value"""
+    import dataclasses
+    if isinstance(v, torch.Tensor):
+        return ["tensor", list(v.shape), float(v.double().sum()) if v.numel() else 0.0]
+    if isinstance(v, np.ndarray):
+        return ["array", list(v.shape), float(v.sum()) if v.size else 0.0]
+    if isinstance(v, (bool, int, float, str)) or v is None:
+        return v
+    if isinstance(v, np.generic):
+        return v.item()
+    if isinstance(v, type):
+        return "class:" + v.__name__
+    if dataclasses.is_dataclass(v) and not isinstance(v, type):
+        return _canon(dataclasses.asdict(v))
+    if isinstance(v, dict):
+        return {str(k): _canon(x) for k, x in v.items()}
+    if isinstance(v, (list, tuple)):
+        return [_canon(x) for x in v]
+    return repr(v)
+
+
+def _flatten(prefix: str, v, out: dict) -> None:
+    if isinstance(v, dict):
+        for k, x in v.items():
+            if k in HYPER_KEYS:
+                continue
+            _flatten(f"{prefix}.{k}" if prefix else k, x, out)
+    else:
+        out[prefix] = v
+
+
+def config_view(m) -> dict:
+    """what the module reports about itself, minus the architecture hyperparameters a mutation may change:
+    every entry of `init_dict` (recursively) and, for the module and every nested evolvable module, the attribute
+    each bool/str/float constructor option is stored under"""
+    from agilerl.modules.base import EvolvableModule
+    out = {}
+    try:
+        _flatten("init_dict", _canon(m.init_dict), out)
+    except Exception as e:
+        out["init_dict"] = f"raised {type(e).__name__}"
+    for n, mod in torch.nn.Module.named_modules(m):
+        if isinstance(mod, EvolvableModule):
+            # the attribute a constructor option is stored under (same name), for every nested module
+            try:
+                names = [a for a in inspect.signature(type(mod).__init__).parameters if a != "self"]
+            except (TypeError, ValueError):
+                continue
+            for a in names:
+                if a in HYPER_KEYS or a.startswith(("min_", "max_")):
+                    continue
+                try:
+                    v = getattr(mod, a)
+                except Exception:
+                    continue
+                if isinstance(v, (bool, str, float)) or v is None:
+                    out[f"attr:{n}.{a}"] = v
+    return out
+
+
+def config_problems(C0: dict, C1: dict, what: str) -> list:
+    bad = []
+    for k in C0:
+        if k in C1 and C0[k] != C1[k]:
+            bad.append(f"{what} changed the reported option {k}: {C0[k]!r} -> {C1[k]!r}")
+    gone = [k for k in C0 if k not in C1 and k.startswith("init_dict")]
+    if gone:
+        bad.append(f"{what} dropped the reported options {gone[:4]}")
+    return bad[:4]
+
+
+def rebuild_problems(m, label: str) -> list:
+    """the live module must agree with a module freshly built from its own init_dict: same parameter and
+    buffer names and shapes (otherwise clone() / reinit_from_mutated cannot carry the weights over)"""
+    try:
+        fresh = type(m)(**copy.deepcopy(m.init_dict))
+    except AssertionError as e:
+        return [] if "must be an integer" in str(e) else [f"{label}: cls(**init_dict) raised AssertionError: {e}"]
+    except Exception as e:
+        return [f"{label}: cls(**init_dict) raised {type(e).__name__}: {e}"]
+    live = {k: tuple(v.shape) for k, v in list(m.named_parameters()) + list(m.named_buffers())}
+    new = {k: tuple(v.shape) for k, v in list(fresh.named_parameters()) + list(fresh.named_buffers())}
+    if live != new:
+        d = [f"{k}: live {live.get(k)} vs rebuilt {new.get(k)}" for k in sorted(set(live) | set(new))
+             if live.get(k) != new.get(k)]
+        return [f"{label}: the live network no longer is the one its init_dict describes: " + "; ".join(d[:3])]
+    return []
+
+
 def nested_mods(m) -> dict:
     from agilerl.modules.base import EvolvableModule
     return {n: mod for n, mod in torch.nn.Module.named_modules(m) if n and isinstance(mod, EvolvableModule)}
@@ -692,6 +791,7 @@ def run_chain(chk: Check, case: dict):
     g = torch.Generator().manual_seed(seed + 5)
     x = _sample(obs_of(spec, m), 3, g)
     replaced = [{}, {}]              # nested evolvable modules replaced since the object was built (name -> discarded object)
+    events = [[], []]                # outermost mutation calls per object, for the context model
     for si, st in enumerate(case["chain"]):
         op = st["op"]
         label = f"step {si} {op} {st.get('m', '')}".strip()
@@ -703,11 +803,14 @@ def run_chain(chk: Check, case: dict):
             res["tags"].append("clone")
             if c is None:
                 return res
+            res["problems"] += [f"{label}: {t}" for t in config_problems(config_view(m), config_view(c), "clone()")]
             m = c
             replaced[0] = {}
+            events[0] = []
             if m2 is not None and op == "mut":
                 m2 = m2.clone()
                 replaced[1] = {}
+                events[1] = []
             if op == "clone":
                 continue
         targets = [m] + ([m2] if m2 is not None else [])
@@ -718,6 +821,7 @@ def run_chain(chk: Check, case: dict):
             y0t = forward(spec, net, x, seed, train=True)
             mods0 = nested_mods(net)
             H0 = hyper(net)
+            C0 = config_view(net)
             np.random.seed(st["seed"] % (2 ** 32))
             torch.manual_seed(st["seed"])
             try:
@@ -741,7 +845,43 @@ def run_chain(chk: Check, case: dict):
                              if q in replaced[ti]]
                     for o in stale:
                         o.last_mutation_attr = "__c04_sentinel__"
-                    r = getattr(net, name)(**kw)
+                    fault = st.get("fault") if ti == 0 else None
+                    if fault == "badkw":
+                        # a call that fails (arguments of another network's mutation replayed on a method
+                        # that does not take them), then the valid call on the same object
+                        try:
+                            getattr(net, name)(**{"c04_unknown_argument": 1})
+                            res["tags"].append("fault-not-raised")
+                            events[ti].append("o" + str(int(hyper(net) != H0)))
+                        except TypeError:
+                            res["tags"].append("fault-badkw")
+                            events[ti].append("r" + str(int(hyper(net) != H0)))
+                    Hc = hyper(net)
+                    if fault == "hook":
+                        # a user mutation hook of the module that owns the method fails once, after the
+                        # mutation itself has been carried out
+                        owner = resolve_method(net, name)[0]
+                        state = {"n": 0}
+
+                        def flaky():
+                            state["n"] += 1
+                            if state["n"] == 1:
+                                raise _HookFault("transient failure in a user hook")
+                        prev = owner._mutation_hook
+                        owner.register_mutation_hook(flaky)
+                        try:
+                            r = getattr(net, name)(**kw)
+                            events[ti].append("o" + str(int(hyper(net) != Hc)))
+                        except _HookFault:
+                            r = None
+                            res["tags"].append("fault-hook")
+                            events[ti].append("r" + str(int(hyper(net) != Hc)))
+                        finally:
+                            resolve_method(net, name)[0]._mutation_hook = None
+                            owner._mutation_hook = prev
+                    else:
+                        r = getattr(net, name)(**kw)
+                        events[ti].append("o" + str(int(hyper(net) != Hc)))
                     if any(o.last_mutation_attr != "__c04_sentinel__" for o in stale):
                         # the dotted wrapper still acts on a nested module that an earlier recreate
                         # replaced (analysed defect): the live network is now inconsistent, stop here
@@ -758,6 +898,21 @@ def run_chain(chk: Check, case: dict):
             H1 = hyper(net)
             loc = locality_problems(H0, H1, op, name)
             res["problems"] += [f"{label}: {t}" for t in loc]
+            # constructor options and public flags are not architecture: no mutation may change them
+            res["problems"] += [f"{label}: {t}" for t in config_problems(C0, config_view(net), name)]
+            # configuration and live network stay in step (also after a failed call): model vs. implementation
+            rb = rebuild_problems(net, label)
+            res["problems"] += rb
+            if op == "mut":
+                ans = chk.driver.run(["reset", "preserve ctx 0 " + " ".join(events[ti])])[1]
+                real = f"{getattr(net, '_mutation_depth', 0)} {0 if rb else 1}"
+                chk.corr["model_lines"] += 1
+                if ans != real and not rb:
+                    res["diffs"].append(f"{label}: mutation context after calls {events[ti]}: (_mutation_depth, in sync) "
+                                        f"impl={real} model={ans}")
+                elif ans != real:
+                    res["problems"].append(f"{label}: after calls {events[ti]} (_mutation_depth, in sync) is {real}, "
+                                           f"expected {ans}")
             if H0 == H1:
                 res["tags"].append("hyper-unchanged")
                 if not (same_arch(P0, P1) and same_arch(B0, B1)):
@@ -788,6 +943,9 @@ def run_chain(chk: Check, case: dict):
                         res["problems"].append(f"{label}: architecture unchanged but module(x) changed")
             else:
                 res["tags"].append("arch-changed")
+            if not rb:
+                p, d, _ = check_clone(chk, spec, net, x, seed + si, label + " (then clone)", light=True)
+                res["problems"] += p
     p, d, _ = check_clone(chk, spec, m, x, seed + 99, "final")
     res["problems"] += p
     res["diffs"] += d
@@ -907,6 +1065,101 @@ def gen_spec(rng: random.Random, kind: str | None = None, fam: str | None = None
     return {"kind": kind, "cfg": cfg}
 
 
+# ---- sweep of non-default constructor options ------------------------------------------------------------------
+# Options are enumerated from the constructor signatures (so a new option is picked up); values come from this
+# table by name, a boolean option the table does not know is flipped, anything else unknown is counted as unswept.
+OPTION_VALUES = {
+    "activation": ["Tanh", "ELU", "GELU", "LeakyReLU", "Softsign", "Sigmoid", "Softplus", "PReLU"],
+    "output_activation": ["Tanh", "Sigmoid", "Softsign", "ELU", "Softmax", "ReLU"],
+    "noise_std": [0.25],
+    "action_std_init": [0.5, -0.5],
+    "name": ["zz"],
+    "random_seed": [7],
+}
+# structural / already generated / not an option of the computed function
+OPTION_SKIP = {"self", "device", "latent_dim", "encoder_cls", "encoder_config", "head_config", "cnn_config", "mlp_config",
+               "lstm_config", "init_dicts", "n_agents", "simba", "recurrent", "num_atoms", "sample_input", "block_type",
+               "num_layers", "scale_factor", "vector_space_mlp", "support", "observation_space", "action_space",
+               "num_inputs", "num_outputs", "input_shape", "input_size", "hidden_size", "channel_size", "kernel_size",
+               "stride_size", "num_blocks", "dropout", "accelerator"}
+
+
+def _module_class(name: str):
+    import importlib
+    mod = {"EvolvableMLP": "mlp", "EvolvableCNN": "cnn", "EvolvableLSTM": "lstm", "EvolvableSimBa": "simba",
+           "EvolvableResNet": "resnet", "EvolvableMultiInput": "multi_input"}[name]
+    return getattr(importlib.import_module("agilerl.modules." + mod), name)
+
+
+def _sweep_into(rng: random.Random, cls, cfg: dict, nested: bool, p: float, stats: dict) -> None:
+    params = inspect.signature(cls.__init__).parameters
+    eligible = []
+    for n, prm in params.items():
+        if n in OPTION_SKIP or n.startswith(("min_", "max_")) or prm.default is inspect._empty:
+            continue
+        if nested and n == "name":
+            continue                                  # the owning network passes the name itself
+        if n in OPTION_VALUES:
+            eligible.append((n, OPTION_VALUES[n]))
+        elif isinstance(prm.default, bool):
+            eligible.append((n, [not prm.default]))
+        else:
+            stats["unswept"].add(f"{cls.__name__}.{n}")
+    chosen = [e for e in eligible if rng.random() < p]
+    if not chosen and eligible and rng.random() < 0.5:
+        chosen = [rng.choice(eligible)]
+    for n, vals in chosen:
+        cfg[n] = rng.choice(vals)
+        stats["swept"].add(n)
+    if cfg.get("new_gelu"):
+        cfg["activation"] = "GELU"                     # the option only matters together with GELU
+
+
+def sweep_options(rng: random.Random, spec: dict, p: float = 0.3) -> dict:
+    """set non-default values of constructor options of the module / network and of its nested configs"""
+    kind, cfg = spec["kind"], spec["cfg"]
+    stats = {"swept": set(), "unswept": set()}
+    mods = {"mlp": "EvolvableMLP", "cnn": "EvolvableCNN", "cnn3d": "EvolvableCNN", "lstm": "EvolvableLSTM",
+            "simba": "EvolvableSimBa", "resnet": "EvolvableResNet", "multi": "EvolvableMultiInput"}
+
+    def multi_nested(c):
+        if isinstance(c.get("cnn_config"), dict):
+            _sweep_into(rng, _module_class("EvolvableCNN"), c["cnn_config"], True, p, stats)
+        if isinstance(c.get("mlp_config"), dict):
+            _sweep_into(rng, _module_class("EvolvableMLP"), c["mlp_config"], True, p, stats)
+
+    if kind in mods:
+        _sweep_into(rng, _module_class(mods[kind]), cfg, False, p, stats)
+        if kind == "multi":
+            multi_nested(cfg)
+    else:
+        _sweep_into(rng, _net_class(kind), cfg, False, p, stats)
+        enc = cfg.get("encoder_config")
+        if isinstance(enc, dict):
+            if cfg.get("encoder_cls") in ENCODER_CLASSES:
+                ecls = _encoder_class(cfg["encoder_cls"])
+            elif cfg.get("encoder_cls") == "ResNet":
+                ecls = _module_class("EvolvableResNet")
+            elif cfg["obs"][0] in ("dict", "tuple"):
+                ecls = _module_class("EvolvableMultiInput")
+            elif cfg["obs"][0] == "img":
+                ecls = _module_class("EvolvableCNN")
+            elif cfg.get("recurrent"):
+                ecls = _module_class("EvolvableLSTM")
+            elif cfg.get("simba"):
+                ecls = _module_class("EvolvableSimBa")
+            else:
+                ecls = _module_class("EvolvableMLP")
+            _sweep_into(rng, ecls, enc, True, p, stats)
+            if ecls.__name__ == "EvolvableMultiInput":
+                multi_nested(enc)
+        if isinstance(cfg.get("head_config"), dict) and kind != "rainbow":
+            _sweep_into(rng, _module_class("EvolvableMLP"), cfg["head_config"], True, p, stats)
+    spec["swept"] = sorted(stats["swept"])
+    spec["unswept"] = sorted(stats["unswept"])
+    return spec
+
+
 def latent_step(rng: random.Random, name: str, inplace: bool) -> dict:
     """a latent-node mutation: a small real change, a change refused by the hard limit, or the method's own draw"""
     r = rng.random()
@@ -915,8 +1168,21 @@ def latent_step(rng: random.Random, name: str, inplace: bool) -> dict:
 
 
 def gen_case(rng: random.Random, tier: str, kind: str | None = None, fam: str | None = None,
-             directed: bool | None = None) -> dict:
+             directed: bool | None = None, sweep: bool | None = None) -> dict:
     spec = gen_spec(rng, kind, fam)
+    plain = copy.deepcopy(spec)
+    if sweep is None:
+        sweep = rng.random() < 0.75
+    if sweep:
+        sweep_options(rng, spec)
+        try:                                            # an illegal combination of options: keep the plain spec
+            np.random.seed(0)
+            torch.manual_seed(0)
+            m_try = make(spec)
+            forward(spec, m_try, _sample(obs_of(spec, m_try), 2, torch.Generator().manual_seed(0)), 0)
+        except Exception:
+            spec = plain
+            spec["swept"] = ["(illegal combination dropped)"]
     case = {"suite": "mutation", "spec": spec, "seed": rng.randrange(1 << 30),
             "train": 2 if rng.random() < 0.25 else 0,
             "pair": spec["kind"] in NET_CLASSES and rng.random() < 0.3, "chain": []}
@@ -951,7 +1217,7 @@ def gen_case(rng: random.Random, tier: str, kind: str | None = None, fam: str | 
             case["chain"].append(latent_step(rng, rng.choice(latent), rng.random() < 0.5))
         if rng.random() < 0.3:
             case["chain"].append({"op": "recreate", "seed": rng.randrange(1 << 30)})
-        return case
+        return add_faults(rng, case)
     length = rng.randint(1, 4 if tier == "quick" else 7)
     for _ in range(length):
         r = rng.random()
@@ -967,6 +1233,25 @@ def gen_case(rng: random.Random, tier: str, kind: str | None = None, fam: str | 
             case["chain"].append({"op": "mut", "m": name, "kw": gen_kwargs(rng, spec, m, name),
                                   "seed": rng.randrange(1 << 30),
                                   "inplace": rng.random() < (0.5 if nested else 0.8)})
+    return add_faults(rng, case)
+
+
+def add_faults(rng: random.Random, case: dict) -> dict:
+    """a fault at a point, then the rest of the sequence on the same object: a quarter of the chains get one
+    failing call (bad keyword arguments / a user hook that raises once) on a step that is followed by another
+    in-place mutation"""
+    muts = [i for i, st in enumerate(case["chain"]) if st["op"] == "mut"]
+    if muts and rng.random() < 0.3:
+        i = rng.choice(muts[:-1] or muts)
+        case["chain"][i]["fault"] = rng.choice(["badkw", "badkw", "hook"])
+        case["chain"][i]["inplace"] = True
+        for st in case["chain"][i + 1:]:
+            if st["op"] == "mut":
+                st["inplace"] = True
+                break
+        else:
+            case["chain"].append({"op": "mut", "m": case["chain"][i]["m"], "kw": case["chain"][i].get("kw"),
+                                  "seed": rng.randrange(1 << 30), "inplace": True})
     return case
 
 
@@ -1030,7 +1315,9 @@ def suite_mutation(chk: Check, n: int) -> set:
         chk.case(["mutation", case], nontrivial=nontrivial,
                  sample={"kind": case["spec"]["kind"], "chain": [s.get("m", s["op"]) for s in case["chain"]],
                          "applied": r["applied"]},
-                 tags=sorted(set(r["tags"])) + ["kind-" + case["spec"]["kind"]])
+                 tags=sorted(set(r["tags"])) + ["kind-" + case["spec"]["kind"]]
+                 + ["opt-" + o for o in case["spec"].get("swept", [])]
+                 + ["unswept-" + o for o in case["spec"].get("unswept", [])])
         all_hits |= report(chk, case, r["problems"], r["diffs"], r["hits"], shrinker(chk, case))
         nd += bool(r["diffs"])
     chk.suite("mutation-chains", len(cases), nd)
@@ -1233,6 +1520,11 @@ def run(chk: Check) -> None:
                 "method (own or explicit arguments, replayed on a second network) | recreate_network; distinct = "
                 "distinct (spec, chain); non-trivial = some parameter was resized/added or a shape-preserving "
                 "recreate happened")
+    chk.rule += ("; three quarters of the specs carry non-default values of constructor options enumerated from the "
+                 "constructor signatures (activations incl. GELU+new_gelu, output activations, layer_norm, noisy, "
+                 "output_vanish, init_layers, normalize_actions, squash_output, clip_actions, name, ...); a quarter of "
+                 "the chains contain one failing call (unknown keyword arguments / a user hook raising once) followed "
+                 "by valid in-place mutations")
     chk.assumptions = [
         "weights are randomised (a quarter of the cases also take two SGD steps) instead of trained to convergence",
         "a buffer (BatchNorm running_mean/var, num_batches_tracked) counts as a learned weight; NoisyLinear "
@@ -1241,6 +1533,11 @@ def run(chk: Check) -> None:
         "rebuildability of cls(**init_dict) is C03's obligation: ResNet channel mutations are always called with "
         "explicit python ints (np.int64 channel sizes make the constructor assert, DESIGN D21)",
         "a LayerNorm/BatchNorm key is recognised like the code does: the substring 'norm' in the parameter name",
+        "a constructor option (anything in a constructor signature that is not an architecture hyperparameter or a "
+        "bound) is part of the function: no mutation, refused mutation or clone may change its reported value "
+        "(init_dict entry / same-named attribute); incidental attributes are not compared",
+        "after every step the live module must have the parameter/buffer names and shapes of cls(**init_dict) - this is "
+        "what clone() and reinit_from_mutated need to carry weights over - also after a call that raised",
     ]
     chk.trusted_extra = ["torch slicing/broadcast semantics of Tensor.__setitem__ (validated against the model by the "
                          "`pure` suite on every run)"]
@@ -1415,7 +1712,39 @@ def selftest(chk: Check) -> None:
         ok8 = bool(run_agent_case(chk, "MADDPG", "vector", 4, "none", 1)[0])
     finally:
         hm.Mutations.reinit_from_mutated = orig_reinit
-    missed = [n for n, ok in (("clone without the noise buffers", ok7), ("multi-agent targets not reloaded", ok8),
+    # 9. a constructor option is lost when the network is re-created
+    gelu_case = json.loads((corpus / "mut_option_new_gelu.json").read_text())
+    fault_case = json.loads((corpus / "mut_fault_then_valid_mlp.json").read_text())
+    if noticed(gelu_case) or noticed(fault_case):
+        raise InfraError("C04 self-test: the unpatched implementation is flagged on the option / fault corpus cases")
+
+    def lossy_recreate(self):
+        keep = self.new_gelu
+        self.new_gelu = False
+        try:
+            orig_rec(self)
+        finally:
+            self.new_gelu = keep
+    mm.EvolvableMLP.recreate_network = lossy_recreate
+    try:
+        ok9 = noticed(gelu_case)
+    finally:
+        mm.EvolvableMLP.recreate_network = orig_rec
+    # 10. the mutation context skips its bookkeeping when an exception escapes
+    orig_exit = mb.MutationContext.__exit__
+
+    def early_exit(self, exc_type, exc_val, exc_tb):
+        if exc_type is not None:
+            return None
+        return orig_exit(self, exc_type, exc_val, exc_tb)
+    mb.MutationContext.__exit__ = early_exit
+    try:
+        ok10 = noticed(fault_case)
+    finally:
+        mb.MutationContext.__exit__ = orig_exit
+    missed = [n for n, ok in (("constructor option lost on re-creation", ok9),
+                              ("mutation context without bookkeeping after an exception", ok10),
+                              ("clone without the noise buffers", ok7), ("multi-agent targets not reloaded", ok8),
                               ("wrong-corner copy", ok1), ("recreate without preserve", ok2),
                               ("clone without load_state_dict", ok3), ("wrong-corner copy (pure suite)", ok4),
                               ("multi-input rebuilt from stale configs", ok5),
@@ -1425,7 +1754,8 @@ def selftest(chk: Check) -> None:
     chk.notes.append("self-test: wrong-corner copy, recreate_network without preserve, clone without load_state_dict, "
                      "multi-input extractors rebuilt from construction-time configs, encoder_cls encoder re-created "
                      "without preserve, clone without the NoisyLinear noise buffers, multi-agent target networks not "
-                     "reloaded from the evaluation networks - all detected")
+                     "reloaded from the evaluation networks, constructor option lost on re-creation, mutation context "
+                     "without bookkeeping after an exception - all detected")
 
 
 def replay(chk: Check, path: str) -> int:
